@@ -152,10 +152,19 @@ func (s rdNumber[T]) Sum() (sum T) {
 	s.txn.initialize()
 	s.txn.rangeRead(func(chunk commit.Chunk, index bitmap.Bitmap) {
 		if int(chunk) < len(s.reader.chunks) {
-			sum += bitmap.Sum(s.reader.chunks[chunk].data, index)
+			fill, data := s.reader.chunkAt(chunk)
+			sum += bitmap.Sum(data, present(index, fill))
 		}
 	})
 	return sum
+}
+
+// present returns the part of the selection which holds a value, without altering the selection
+func present(index, fill bitmap.Bitmap) bitmap.Bitmap {
+	out := make(bitmap.Bitmap, len(index))
+	copy(out, index)
+	out.And(fill)
+	return out
 }
 
 // Avg computes an arithmetic mean of the column values selected by this transaction
@@ -164,7 +173,9 @@ func (s rdNumber[T]) Avg() float64 {
 	s.txn.initialize()
 	s.txn.rangeRead(func(chunk commit.Chunk, index bitmap.Bitmap) {
 		if int(chunk) < len(s.reader.chunks) {
-			sum += bitmap.Sum(s.reader.chunks[chunk].data, index)
+			fill, data := s.reader.chunkAt(chunk)
+			index = present(index, fill)
+			sum += bitmap.Sum(data, index)
 			ct += index.Count()
 		}
 	})
@@ -176,7 +187,8 @@ func (s rdNumber[T]) Min() (min T, ok bool) {
 	s.txn.initialize()
 	s.txn.rangeRead(func(chunk commit.Chunk, index bitmap.Bitmap) {
 		if int(chunk) < len(s.reader.chunks) {
-			if v, hit := bitmap.Min(s.reader.chunks[chunk].data, index); hit && (v < min || !ok) {
+			fill, data := s.reader.chunkAt(chunk)
+			if v, hit := bitmap.Min(data, present(index, fill)); hit && (v < min || !ok) {
 				min = v
 				ok = true
 			}
@@ -190,7 +202,8 @@ func (s rdNumber[T]) Max() (max T, ok bool) {
 	s.txn.initialize()
 	s.txn.rangeRead(func(chunk commit.Chunk, index bitmap.Bitmap) {
 		if int(chunk) < len(s.reader.chunks) {
-			if v, hit := bitmap.Max(s.reader.chunks[chunk].data, index); hit && (v > max || !ok) {
+			fill, data := s.reader.chunkAt(chunk)
+			if v, hit := bitmap.Max(data, present(index, fill)); hit && (v > max || !ok) {
 				max = v
 				ok = true
 			}
